@@ -103,7 +103,8 @@ def perform(op, ctx):
     if k == "preset":
         return {"metric": pb.loadMetricUnits, "imperial": pb.loadImperialUnits, "mixed": pb.loadMixedUnits}[op["which"]]()
     if k == "gstep":
-        return pb.set_global_max_calc_step_size(ctx.arg(op["value"]))
+        pb.set_global_max_calc_step_size(ctx.arg(op["value"]))
+        return pb.get_global_max_calc_step_size()      # the resulting setting is the operation's observable result
     if k == "reset_globals":
         return pb.reset_globals()
     if k == "basic_config":
